@@ -169,6 +169,16 @@ func goodSyntax(text string) string {
 		return ""
 	}
 	lit := func(r *syntax.Regexp) bool { return r.Op == syntax.OpLiteral && r.Flags&syntax.FoldCase == 0 && len(r.Rune) > 0 }
+	if strings.Contains(text, "(?") {
+		// flag groups: the parser normalises some of them away ((?i)1 parses as the literal 1), the
+		// index code works on the text it re-prints; only the fold-case literal below is a proved form
+		// (a fold-case literal without a cased letter is printed as a plain literal and handed to
+		// the or-values lookup: (?i)1 is evaluated anchored — finding regex_nonliteral_unanchored)
+		if re.Op == syntax.OpLiteral && re.Flags&syntax.FoldCase != 0 && len(re.Rune) > 0 && strings.Contains(re.String(), "(?i") {
+			return "fold-literal"
+		}
+		return ""
+	}
 	dot := func(r *syntax.Regexp) bool {
 		return (r.Op == syntax.OpStar || r.Op == syntax.OpPlus) && r.Sub[0].Op == syntax.OpAnyCharNotNL
 	}
@@ -201,8 +211,6 @@ func goodSyntax(text string) string {
 	switch {
 	case lit(re):
 		return "literal"
-	case re.Op == syntax.OpLiteral && re.Flags&syntax.FoldCase != 0 && len(re.Rune) > 0:
-		return "fold-literal" // left to the regexp library, unanchored
 	case re.Op == syntax.OpPlus && re.Sub[0].Op == syntax.OpCharClass:
 		return "class+" // left to the regexp library, unanchored
 	case re.Op == syntax.OpStar && re.Sub[0].Op == syntax.OpAnyCharNotNL:
@@ -222,6 +230,11 @@ func goodSyntax(text string) string {
 		return "dots-literal-dots"
 	}
 	return ""
+}
+
+// pureLiteral: the regex text is nothing but an (escaped) literal
+func pureLiteral(text string, sre *syntax.Regexp) bool {
+	return sre.Op == syntax.OpLiteral && sre.Flags&syntax.FoldCase == 0 && !strings.Contains(text, "(?")
 }
 
 func needsEscape(s string) bool { return strings.ContainsAny(s, ",= ") }
@@ -656,6 +669,8 @@ func (rn *runner) searchWith(kind string, mi int, p *pnode, res []*reAtom) {
 		}
 		if class != "" {
 			desc += "; " + why
+		} else if why != "" {
+			desc += "; not attributable to a regex finding: " + why
 		}
 		rn.c.Violation(line, class, desc)
 	} else if class != "" {
